@@ -401,10 +401,14 @@ namespace vf {
         }
     }
 
-    // boundary values for T from the TLC-generated table
+    // boundary values for T from the TLC-generated table, tiers 0..maxtier
+    // (default: tier 0 in the quick tier, everything in the thorough tier)
     template<class T>
-    std::vector<T> boundary()
+    std::vector<T> boundary(int maxtier = -1)
     {
+        if (maxtier < 0) {
+            maxtier = thorough() ? 2 : 0;
+        }
         auto const& t = value_table();
         auto it = t.find({static_cast<int>(sizeof(T) * 8), is_signed_int<T> ? 1 : 0});
         if (it == t.end()) {
@@ -413,7 +417,7 @@ namespace vf {
         }
         std::vector<T> v;
         for (auto const& tv : it->second) {
-            if (tv.tier == 0 || thorough()) {
+            if (tv.tier <= maxtier) {
                 v.push_back(from_sm<T>(tv.neg, tv.mag));
             }
         }
@@ -462,19 +466,14 @@ namespace vf {
         }
     };
 
-    // the operand set for a type: all values for 8-bit, else boundary + nrand random
+    // boundary set (tier per VERIF_TIER unless given) + nrand seeded random values
     template<class T>
-    std::vector<T> operands(int nrand, std::uint64_t salt)
+    std::vector<T> operands(int nrand, std::uint64_t salt, int maxtier = -1)
     {
-        std::vector<T> v;
-        if constexpr (sizeof(T) == 1) {
-            v = all_values<T>();
-        } else {
-            v = boundary<T>();
-            rng r(salt);
-            for (int i = 0; i < nrand; ++i) {
-                v.push_back(r.template value<T>());
-            }
+        std::vector<T> v = boundary<T>(maxtier);
+        rng r(salt);
+        for (int i = 0; i < nrand; ++i) {
+            v.push_back(r.template value<T>());
         }
         return v;
     }
